@@ -14,7 +14,7 @@ class Knobs:
         self.evars = rng.sample([0, 1, 2, 3, 254, 255] if hi else [0, 1, 2, 3], rng.randint(1, 3))
         self.svars = rng.sample([0, 1, 2, 255] if hi else [0, 1, 2], rng.randint(1, 2))
         self.syms = list(range(rng.randint(1, 3))) + ([200] if hi else [])
-        self.mvars = rng.sample([0, 1, 2, 3, 4], rng.randint(1, 3))
+        self.mvars = rng.sample([0, 1, 2, 3, 4, 128, 255] if hi else [0, 1, 2, 3, 4], rng.randint(1, 3))
         self.p_meta = rng.choice([0.0, 0.15, 0.3, 0.5])
         self.p_constr = rng.choice([0.0, 0.2, 0.5, 0.8])
         self.p_subst = rng.choice([0.0, 0.1, 0.3])
